@@ -32,4 +32,29 @@ address constraint) — i.e. it can only act on the signer's own accounts -/
 def Guarded (ix : IxId) : Bool :=
   (info ix).attr.isSome || (decide ((info ix).signers > 0) && decide ((info ix).ownerBound > 0))
 
+/-- `Close::preprocess`: the caller may close when it owns the action, or holds the keeper role and the
+action is finished (or the implementation skips that check) -/
+def closeAllowed (isOwner hasKeeperRole skipsCompletionCheck completedOrCancelled : Bool) : Bool :=
+  isOwner || (hasKeeperRole && (skipsCompletionCheck || completedOrCancelled))
+
+/-- facts about the caller that the in-handler checks look at -/
+structure Caller where
+  has : Role → Bool
+  /-- owns the action account being closed -/
+  isOwner : Bool
+  /-- is the store's treasury receiver -/
+  isReceiver : Bool
+  /-- holds `timelocked_role(role)` for the role argument of the call -/
+  hasTimelockedRole : Bool
+
+/-- does the in-handler authority check let the caller through? -/
+def handlerAuthOk (c : Caller) (completedOrCancelled : Bool) : HandlerAuth → Bool
+  | .none => true
+  | .closeOwnerOrKeeper r skip => closeAllowed c.isOwner (c.has r) skip completedOrCancelled
+  | .treasuryReceiver => c.isReceiver
+  | .timelockedRole => c.hasTimelockedRole
+
+/-- checked by the attribute, by account constraints or by the handler itself -/
+def Protected (ix : IxId) : Bool := Guarded ix || decide (handlerAuth ix ≠ .none)
+
 end Gmx.Access
